@@ -127,6 +127,12 @@ func genC04(g *Gen) {
 				g.Run("one very long token:"+kind, []Ev{{"op": "tok", "kind": kind, "opts": []any{}, "input": cpsR(in)}})
 			}
 		}
+		// a stream handed over after the caller has read part of it
+		for _, prefix := range []string{"heading\n", "x", "# skipped, 'quoted\r\n", "{{"} {
+			for i, sn := range tokSnippets[kind] {
+				g.Run("a stream handed over in the middle:"+kind, []Ev{{"op": "tok", "kind": kind, "opts": []any{}, "input": cpsR([]rune(sn)), "prefix": cps(prefix), "strings": i%3 == 2}})
+			}
+		}
 		n := g.Pick(1500, 40000)
 		for i := 0; i < n; i++ {
 			var in []rune
